@@ -100,6 +100,13 @@ class Ctx:
         """build property modules (+ driver), audit axioms of every theorem in them, scan for forbidden tokens.
         Returns dict theorem -> axioms for theorems that exist. Failing modules are recorded as failed obligations."""
         exe_t = "nm_" + self.id
+        # cross-property composition modules (props/compose.json: {"Cxx": ["NutsProofs.Props.Compose…"]}) are built and
+        # audited together with the property whose statement they strengthen
+        try:
+            extra = json.load(open(os.path.join(ROOT, "props", "compose.json"))).get(self.id, [])
+        except (OSError, ValueError):
+            extra = []
+        modules = list(modules) + [m for m in extra if m not in modules]
         targets = list(modules) + ([exe_t] if exe else [])
         ok, out = self.lake(targets)
         self.lake_log = out
